@@ -103,3 +103,8 @@ def oracle(line, out):
 
 def in_domain(line):
     return True
+
+
+def extra_evidence():
+    from space_packet_parser import packets
+    return {"trim_threshold_lowered_in_code_object": pu.REAL_TRIM in packets.ccsds_generator.__code__.co_consts}
